@@ -140,16 +140,19 @@ theorem merge_complete (cv : Conv V) (k : Bool) (r : Ref) (d s : Sec V)
 
 /-- What exactly each child of the source turns into: the child `contains` finds is replaced by
     its own merge with the source child (which succeeded); a child that is not found is
-    appended as a copy. This unfolds recursively through `merge` / `propMerge`. -/
+    appended as a copy. This unfolds recursively through `merge` / `propMerge`. (The reference
+    handed down carries the record flag in force at `d`, `Ref.eff`: nothing below a Section whose
+    link or include is resolved is recorded.) -/
 theorem merge_values_tree (cv : Conv V) (k : Bool) (r : Ref) (d s : Sec V)
     (hwf : wfSec cv s = true) (hok : (merge cv k r d s).2 = .ok) :
     (∀ o ∈ s.secs,
       (∀ mine, findSec d.secs o.name o.type = some mine →
         findSec (merge cv k r d s).1.secs o.name o.type =
-          some (merge cv k (r.child o.name) mine o).1 ∧
-        (merge cv k (r.child o.name) mine o).2 = .ok) ∧
+          some (merge cv k ((r.eff d.attrs).child o.name) mine o).1 ∧
+        (merge cv k ((r.eff d.attrs).child o.name) mine o).2 = .ok) ∧
       (findSec d.secs o.name o.type = none →
-        findSec (merge cv k r d s).1.secs o.name o.type = some (cloneMerged (r.child o.name) o))) ∧
+        findSec (merge cv k r d s).1.secs o.name o.type =
+          some (cloneMerged ((r.eff d.attrs).child o.name) o))) ∧
     (∀ p ∈ s.props,
       (∀ mine, findProp d.props p.name = some mine →
         findProp (merge cv k r d s).1.props p.name = some (propMerge cv k mine p).1 ∧
@@ -162,7 +165,7 @@ theorem merge_values_tree (cv : Conv V) (k : Bool) (r : Ref) (d s : Sec V)
   | mk sa sp ss =>
     rw [wfSec_mk] at hwf
     simp only [Sec.props_mk, Sec.secs_mk] at hsh ⊢
-    exact ⟨mergeSecs_result cv k ss r d.secs hwf.2.2 hsh.2.1,
+    exact ⟨mergeSecs_result cv k ss (r.eff d.attrs) d.secs hwf.2.2 hsh.2.1,
            mergeProps_result cv k sp d.props hwf.1 hsh.2.2.1⟩
 
 /-! ## 4. Values and attributes of merged Properties -/
@@ -213,17 +216,25 @@ theorem merge_attrs_fill_only (cv : Conv V) (k : Bool) (d s d' : PropT V)
   · intro hu'; rw [hu']; rfl
 
 /-- Section level: definition and reference are filled, name, type, link and include kept, and
-    the Section remembers what it was merged with. -/
+    the Section remembers what it was merged with - unless its link or include is resolved: then
+    it stays merged with the Section it refers to, and what is on record as filled in from that
+    Section stays as it is (fix dccf4ba; `r.record`: the merge is one that is recorded, i.e. it was
+    not reached from a resolved Section further up). -/
 theorem merge_sec_attrs_fill_only (cv : Conv V) (k : Bool) (r : Ref) (d s : Sec V)
     (hok : (merge cv k r d s).2 = .ok) :
     let R := (merge cv k r d s).1
     R.name = d.name ∧ R.type = d.type ∧ R.attrs.link = d.attrs.link ∧ R.attrs.incl = d.attrs.incl ∧
     Filled d.attrs.definition s.attrs.definition R.attrs.definition ∧
-    Filled d.attrs.reference s.attrs.reference R.attrs.reference ∧ R.attrs.merged = some r := by
+    Filled d.attrs.reference s.attrs.reference R.attrs.reference ∧
+    (r.record = true → d.attrs.resolved = false → R.attrs.merged = some r) ∧
+    (d.attrs.resolved = true → R.attrs.merged = d.attrs.merged ∧
+      R.attrs.filledDef = d.attrs.filledDef ∧ R.attrs.filledRef = d.attrs.filledRef) := by
   have hsh := merge_ok_shape cv k r d s hok
   simp only
   rw [hsh.2.2.2]
-  exact ⟨rfl, rfl, rfl, rfl, filled_fillText _ _, filled_fillText _ _, rfl⟩
+  refine ⟨rfl, rfl, rfl, rfl, filled_fillText _ _, filled_fillText _ _, ?_, ?_⟩
+  · intro hr hd; simp [Ref.pick, Ref.eff, hr, hd]
+  · intro hd; simp [Ref.pick, Ref.eff, hd]
 
 /-! ## 5. Conservative (whatever the outcome) -/
 
@@ -240,7 +251,7 @@ theorem merge_conservative_secs (cv : Conv V) (k : Bool) (r : Ref) (d s : Sec V)
     (merge cv k r d s).1.secs[i]? = some c := by
   rcases (merge_lists cv k r d s).1 with h | h
   · rw [h]; exact hi
-  · rw [h]; exact mergeSecs_keeps cv k s.secs r d.secs i c hi hl
+  · rw [h]; exact mergeSecs_keeps cv k s.secs (r.eff d.attrs) d.secs i c hi hl
 
 /-- The same for Properties (matched by name). -/
 theorem merge_conservative_props (cv : Conv V) (k : Bool) (r : Ref) (d s : Sec V) (i : Nat)
